@@ -375,6 +375,11 @@ def run(prog, rep, tier):
         raise AnalysisError('TRUNC-first-cut: degeneracy mask not found / not determined')
     if check_scale(prog, rep) < 5:
         raise AnalysisError('TRUNC-scale: fewer than 5 scale obligations could be evaluated')
+    rep.rule('OPTION-default-first', 'Config.get stores a missing default, so every reader of a '
+             'truncation option outside truncate() agrees with truncate()\'s default, reads after '
+             'truncate(), or handles the default value at once (explicit store / raise)')
+    if check_option_defaults(prog, rep) < 6:
+        raise AnalysisError('OPTION-default-first: fewer than 6 readers of truncation options')
     rep.floor('TRUNC-combine', 5)
     rep.floor('TRUNC-mask-shape', 5)
     rep.assumptions += ['numerical statements about spectra are NOT decided']
@@ -745,4 +750,136 @@ def check_value_dropped(prog, rep):
                           'result is dropped, so the step never takes effect (use the returned '
                           'tensor or the in-place variant)' %
                           (unparse(st)[:70], st.value.func.attr, recv.id), st.lineno)
+    return n
+
+
+# ------------------------------------------------------------------ OPTION-default-first
+# Config.get(key, default) is a setdefault: the FIRST reader of a key fixes its default for every
+# later reader of the same Config. truncate() owns the defaults of the truncation options; a reader
+# of the same Config elsewhere that supplies a different default silently replaces truncate()'s
+# (e.g. `trunc_par.get('chi_max', None)` before truncate() switches the chi_max=100 default off).
+OPTION_DEFAULT_OK = {
+    # (module, function, key): reason
+    ('tenpy/algorithms/disentangler.py', 'NormDisentangler.__init__', 'trunc_cut'):
+        'reads its own `disent_trunc_par` sub-config (Config.subconfig copies the default it is '
+        'given); None is the documented stop criterion of the chi_opt loop of this class',
+}
+
+
+def _truncate_defaults(prog):
+    f = prog.module('tenpy/linalg/truncation.py').func('truncate')
+    out = {}
+    for c in ast.walk(f):
+        if isinstance(c, ast.Call) and isinstance(c.func, ast.Attribute) and c.func.attr == 'get' \
+                and unparse(c.func.value) == 'options' and len(c.args) >= 2 and isinstance(
+                    c.args[0], ast.Constant) and isinstance(c.args[0].value, str):
+            out[c.args[0].value] = unparse(c.args[1])
+    if len(out) < 5:
+        raise AnalysisError('truncate(): fewer than 5 `options.get(key, default)` reads found')
+    return out
+
+
+def _truncating_functions(prog):
+    """bare names of functions that hand one of their parameters to truncate() (transitively)"""
+    names = {'truncate'}
+    funcs = []
+    for m in prog.all_modules():
+        for q, f in m.functions.items():
+            ps = {a.arg for a in f.args.args + f.args.kwonlyargs}
+            calls = []
+            for c in ast.walk(f):
+                if isinstance(c, ast.Call):
+                    cn = (call_name(c) or '').split('.')[-1]
+                    passed = {unparse(a) for a in c.args} | {unparse(k.value) for k in c.keywords}
+                    if passed & ps:
+                        calls.append(cn)
+            funcs.append((q.split('.')[-1], calls))
+    changed = True
+    while changed:
+        changed = False
+        for nm, calls in funcs:
+            if nm not in names and any(c in names for c in calls):
+                names.add(nm)
+                changed = True
+    return names
+
+
+def check_option_defaults(prog, rep):
+    from ..cfg import CFG
+    defaults = _truncate_defaults(prog)
+    trunc_fns = _truncating_functions(prog)
+    n = 0
+    for m in prog.all_modules():
+        if not m.relpath.startswith('tenpy/'):
+            continue
+        for q, f in m.functions.items():
+            if m.relpath == 'tenpy/linalg/truncation.py' and q == 'truncate':
+                continue
+            sites = []
+            for st in stmts_of(f):
+                if isinstance(st, (ast.If, ast.For, ast.While, ast.Try, ast.With)):
+                    continue
+                for c in ast.walk(st):
+                    if isinstance(c, ast.Call) and isinstance(c.func, ast.Attribute) and \
+                            c.func.attr == 'get' and len(c.args) >= 2 and isinstance(
+                                c.args[0], ast.Constant) and c.args[0].value in defaults and \
+                            'trunc_par' in unparse(c.func.value):
+                        sites.append((st, c))
+            if not sites:
+                continue
+            cfg = None
+            for st, c in sites:
+                key = c.args[0].value
+                recv = unparse(c.func.value)
+                d = unparse(c.args[1])
+                n += 1
+                if d == defaults[key]:
+                    rep.instance('OPTION-default-first', {'function': q, 'module': m.relpath,
+                                                          'key': key, 'default': d, 'how': 'agrees'})
+                    continue
+                how = None
+                if (m.relpath, q, key) in OPTION_DEFAULT_OK:
+                    how = 'table: ' + OPTION_DEFAULT_OK[(m.relpath, q, key)]
+                if how is None:
+                    cfg = cfg or CFG(f)
+
+                    def truncated_before(nd, recv=recv):
+                        if nd.stmt is None or isinstance(nd.stmt, (ast.If, ast.For, ast.While,
+                                                                  ast.Try, ast.With)):
+                            return False
+                        for cc in ast.walk(nd.stmt):
+                            if isinstance(cc, ast.Call) and (call_name(cc) or '').split('.')[-1] \
+                                    in trunc_fns and recv in (
+                                        {unparse(a) for a in cc.args}
+                                        | {unparse(k.value) for k in cc.keywords}):
+                                return True
+                        return False
+                    if not truncated_before(cfg.nodes_of(st)[0]) and \
+                            cfg.dominators_like_before(st, truncated_before):
+                        how = 'read after truncate() fixed its own default'
+                if how is None and isinstance(st, ast.Assign) and len(st.targets) == 1 and \
+                        isinstance(st.targets[0], ast.Name) and st.value is c:
+                    # the supplied default is handled at once: the branch `<v> is <default>` stores
+                    # an explicit value under the key or raises
+                    v = st.targets[0].id
+                    for s2 in stmts_of(f):
+                        if isinstance(s2, ast.If) and s2.lineno > st.lineno and \
+                                unparse(s2.test) in ('%s is %s' % (v, d), '%s == %s' % (v, d)):
+                            for b in s2.body:
+                                if isinstance(b, ast.Raise):
+                                    how = 'default value raises'
+                                for t in getattr(b, 'targets', []):
+                                    if unparse(t) in ("%s['%s']" % (recv, key), ):
+                                        how = 'default value replaced by an explicit store'
+                            break
+                rep.instance('OPTION-default-first', {'function': q, 'module': m.relpath,
+                                                      'key': key, 'default': d,
+                                                      'truncate_default': defaults[key],
+                                                      'how': how})
+                if how is None:
+                    rep.violation('OPTION-default-first', m, q, 'default:%s=%s' % (key, d),
+                                  '`%s` supplies the default %s for the truncation option %r, but '
+                                  'Config.get stores a missing default: truncate() called later '
+                                  'with the same parameters finds %s instead of its own default %s'
+                                  % (key_text(c)[:60], d, key, d, defaults[key]), c.lineno)
     return n
